@@ -163,13 +163,16 @@ PROPS = {
         "rule": "twin runs on real objects: for random scripts (6..30 calls over new_request, deliveries incl. replays/tampering/malformed plaintext, prepare 0-2 documents, get_next, submit real/invented, "
                 "response_ready, retrieve, handle_response) and EVERY step boundary, an untouched clone and a copy restored through stringify/parse of device, reader or both (thorough: plus a random subset of later boundaries) "
                 "execute the remaining script; all outputs and final stringified states must be byte-identical. Also Init and Engaged states restored before their successor call (same QR, BLE ident, same established manager and outcome) and stringify fixed points. "
-                "Three digest algorithms, decoys on/off, with/without trust anchors. Distinct by (history, boundary, restored role, output digest)",
-        "xlate_items": [],
-        "trusted_base": ["session model restore = identity (keeps all fields); real Stringify validated by twin-run correspondence, not proved from the serde derives",
-                         "ciborium/serde derive/base64 as used by Stringify"],
-        "level_text": "Lean theorems: with a restore that keeps every state field, restores at any subset of boundaries of any history leave the whole world and every later observation unchanged (induction over the operation list). The tie is a differential twin run on the real session objects at every boundary, plus restore operations inside the C07/C13 model-correspondence histories.",
-        "level_note": "Trusted: Lean kernel; that parse(stringify s) = s for the real structs is established by correspondence (byte-identical continuation + fixed point), and is to be strengthened by the CBOR/schema round-trip theorems of C16.",
-        "technique": "Lean 4 proof (induction over operation lists) + twin-run differential correspondence",
+                "Three digest algorithms, decoys on/off, with/without trust anchors. Codec correspondence at every boundary: the real stringified device and reader managers are read by the MODEL's base64 and CBOR decoders "
+                "(field names in order, both counters, State variant with the field names of a prepared response must equal what ciborium sees), the model's own stored form of the corresponding abstract state must have the same shape, "
+                "base64 both ways on the real bytes, on all lengths 0..40 and on refused strings (foreign symbol, padding inside, trailing bits). Distinct by (history, boundary, restored role, output digest) / operation line",
+        "xlate_items": ["state-structs"],
+        "trusted_base": ["Model/StateCodec.lean: the serde layer of the ABSTRACT session state (field names, order and enum variants proved equal to the source's by C14_state_fields_match_source against Generated/StateStructs.lean, re-extracted on every run); "
+                         "the CONTENT of the real fields (keys, transcript, documents, prepared COSE structures) is abstract in the model and validated by the twin-run correspondence, not proved from the serde derives",
+                         "ciborium/serde derive/base64 as used by Stringify (the model's base64 and CBOR codecs are tied to them by correspondence on the real stored states)"],
+        "level_text": "Lean theorems: (1) stringify followed by parse gives back EVERY abstract device and reader state - base64 layer for all byte strings, CBOR layer for all well-formed items, serde layer for all states (counters, state variant, documents still to sign, attached signatures, staged response) - and the stored form has exactly the fields, order and State variants the source declares (translator); (2) the model's restore operation IS that composition, so restores at any subset of boundaries of any history leave the whole world and every later observation unchanged (induction over the operation list). Tied to the code by the translator (struct fields, enum variants, serde attributes) and by a differential twin run on the real session objects at every boundary, plus restore operations inside the C07/C13 model-correspondence histories.",
+        "level_note": "Trusted: Lean kernel; xlate; that the real field CONTENTS survive parse(stringify s) is established by correspondence (byte-identical continuation + fixed point); the theorem covers the bookkeeping the session logic depends on.",
+        "technique": "Lean 4 proof (codec round trips; induction over operation lists) + translator (state structs) + twin-run differential correspondence",
         "assumptions": ["holder signatures are deterministic (RFC 6979), so twin runs are comparable byte for byte"],
     },
     "C15": {
@@ -190,7 +193,7 @@ PROPS = {
         "rule": "type-directed generators for every wire type (SessionData, SessionEstablishment, COSE_Key of every curve/key type and odd coordinate lengths, Handover variants, SessionTranscript, ItemsRequest/DocRequest/DeviceRequest, DeviceResponse with application-specific error codes and every status, "
                 "ValidityInfo with non-UTC offsets and sub-second parts, DeviceKeyInfo/KeyAuthorizations/key info, BLE/NFC/Wi-Fi/server retrieval options, DeviceEngagement, Mso, IssuerSigned, IssuerSignedItemBytes, Mdoc, device::Document, DigestId, DigestAlgorithm, both status tables over 0..39, error codes at boundaries, NFC length bounds, out-of-domain rejects); "
                 "per value: Rust to_vec/from_slice/to_vec (same value, byte fixed point), Lean CBOR-layer re-encoding and typed-model re-encoding must reproduce the bytes; JWK conversion and UTC/second-precision time emission checked by Lean predicates. Distinct by encoded bytes",
-        "xlate_items": ["session.rs::Status", "device_response.rs::Status", "wire-structs"],
+        "xlate_items": ["session.rs::Status", "device_response.rs::Status", "wire-structs", "signature_algorithm"],
         "trusted_base": ["Model/Cbor.lean as model of ciborium's Value codec (validated on every generated encoding)", "Model/Wire.lean typed codecs (hand-written; status tables generated) validated by re-encoding real bytes",
                          "Spec/Time.lean civil-date arithmetic validated against the `time` crate", "ssi-jwk JSON view used by the harness to read JWK fields"],
         "level_text": "Lean theorems: dec(enc v) = v, byte fixed point and injectivity for EVERY well-formed CBOR value (structural induction, no size bound); typed round trips for SessionData, COSE_Key, Tag24 (bytes preserved), SessionEstablishment, both status tables (regenerated), error codes incl. rejection of RFU codes; generic lift from tree-level to byte-level round trip. Generic schema layer (Model/Schema.lean, WireSchemas.lean): ONE typed decode-and-re-encode function for serde structs (any input field order, unknown entries, explicit nulls), BTreeMaps (re-sorted, last value wins), Tag24 (bytes preserved), tuples, arrays and untagged alternatives, with a theorem by mutual structural induction over schemas that re-encoding is a fixed point for EVERY item of EVERY one of 16 named wire structures (DeviceRequest/Response with documents, items, MSO, validity and key info, COSE keys, session messages, handover; DeviceEngagement is outside the theorem's side condition and covered by correspondence). The field names, order and optionality of the 13 serde-derived structs are re-extracted from the source on every run and proved equal to the schema instances' (C16_wire_fields_match_source). Every instance is validated against the real library's re-encoding of every generated message and of foreign presentations of it (reversed maps, unknown entries, null options). The remaining types are correspondence-only and named in the evidence.",
@@ -212,11 +215,11 @@ PROPS = {
     },
     "C18": {
         "rule": "every message emitted in generated sessions is fed as raw bytes to the Lean CDDL validator: device engagements for 37 retrieval configurations (no / BLE central, peripheral, both, with address, neither / NFC at boundary lengths / Wi-Fi with every subset of its optional fields / combinations / server retrieval), "
-                "session establishment, every request (decrypted) and response (decrypted: normal single- and multi-document, unheld-document errors, status 11/12 error responses), status-carrying SessionData, and issued MSOs for five device-key kinds x three digest algorithms with key authorisations, key info, expected update, non-UTC sub-second validity; "
+                "session establishment, every request (decrypted) and response (decrypted: normal single- and multi-document, unheld-document errors, status 11/12 error responses), status-carrying SessionData, and issued MSOs for six device-key kinds (P-256, P-384, P-521, secp256k1, Ed25519, Ed448) x three digest algorithms with key authorisations, key info, expected update, non-UTC sub-second validity; "
                 "plus the device-signature algorithm vs device-key curve check on every returned document. Distinct by message bytes",
-        "xlate_items": ["session.rs::Status", "device_response.rs::Status", "wire-structs"],
+        "xlate_items": ["session.rs::Status", "device_response.rs::Status", "wire-structs", "signature_algorithm"],
         "trusted_base": ["Spec/Cddl.lean: the validator, transcribed by hand from the ISO 18013-5 CDDL as recalled in DESIGN.md Appendix A (no copy of the standard in the sandbox)",
-                         "Generated/Tables.lean: status tables translated from the source on every run", "Model/Wire.lean typed encoders for the modelled subset, tied by the C16 correspondence",
+                         "Generated/Tables.lean: status tables and the CoseKey::signature_algorithm table translated from the source on every run", "Model/Wire.lean typed encoders for the modelled subset, tied by the C16 correspondence",
                          "harness decrypts request/response ciphertexts with the session keys read from the stringified state"],
         "level_text": "Lean theorems: for every value of the modelled message types (SessionData incl. status-only, SessionEstablishment, COSE_Key, both status tables as regenerated from the source) the emitted CBOR satisfies the ISO CDDL validator; the validator itself is executable Lean and is applied to the raw bytes of every message kind the real library emits in the generated sessions and to every issued MSO (this covers the message types whose typed model is not yet proved). Generic schema layer: for all 17 named wire structures and every item the typed decoder accepts, the re-emitted item satisfies the structure's validator (exact keys in declared order, required fields, sorted maps without repeated keys, decodable embedded items, non-empty arrays) - theorem C18_wire_conforms by mutual structural induction; every real emitted message is also run through that validator.",
         "level_note": "Trusted: Lean kernel; CDDL transcription; for DeviceRequest/DeviceResponse/MSO/DeviceEngagement the 'for all' is the validator run over generated emissions (typed Lean encoders for them are future work, named in evidence), i.e. correspondence, not yet theorem.",
